@@ -138,7 +138,9 @@ class LabelProbabilityInjector(Injector):
         undefined_classes = [k for k in all_classes if k not in class_probabilities]
 
         # specified class probabilities must sum to 1 or less
-        if sum(class_probabilities.values()) > 1.0:
+        # (up to floating point rounding, e.g. of a Dirichlet draw)
+        total_probability = sum(class_probabilities.values())
+        if total_probability > 1.0 and not np.isclose(total_probability, 1.0):
             raise ValueError(f"Probabilities in {class_probabilities} exceed 1")
 
         # args should not specify previously unseen classes
@@ -150,7 +152,7 @@ class LabelProbabilityInjector(Injector):
             )
 
         # undefined classes are resampled uniformly
-        missing_probability = 1 - sum(class_probabilities.values())
+        missing_probability = max(0.0, 1 - total_probability)
         for uc in undefined_classes:
             class_probabilities[uc] = missing_probability / len(undefined_classes)
 
